@@ -137,6 +137,7 @@ pub fn preflight(case: &Arc<Case>, rt: &mut Rt) -> Result<(), String> {
                     }
                 }
                 Op::OnThread { ops } => collect(ops, regs, pre),
+                Op::WithManager { then, .. } => collect(then, regs, pre),
                 o if o.is_reg() => {
                     if regs {
                         pre.push(o.clone())
